@@ -249,6 +249,8 @@ type vNode struct {
 	subID         rpc.ID
 	subCrit       string
 	wake          chan struct{}
+	gate          chan struct{} // non-nil: every eth_getTransactionReceipt request waits here before it is answered (race op)
+	held          int           // receipt requests that have reached the closed gate
 }
 
 func (n *vNode) poke() {
@@ -266,7 +268,7 @@ func (e *vEth) GetBlockByNumber(ctx context.Context, tag string, full bool) (map
 	defer n.mu.Unlock()
 	defer n.poke()
 	n.tags[tag]++
-	n.calls = append(n.calls, "bn")
+	n.calls = append(n.calls, "hq:"+tag)
 	fail := n.bnErrAll
 	if !fail && n.bnErrLeft > 0 {
 		n.bnErrLeft--
@@ -288,6 +290,21 @@ func (e *vEth) GetBlockByNumber(ctx context.Context, tag string, full bool) (map
 		return nil, errors.New("unknown block tag " + tag)
 	}
 	return map[string]interface{}{"number": hexutil.EncodeUint64(h), "hash": vBlockHashFor(h, 0)}, nil
+}
+
+// eth_blockNumber: always the node's latest head, whatever the watcher's mode (a watcher that reads its head through this
+// call on a chain read at finalized height sees blocks that are not final). Never requested by the pinned code; every request
+// is recorded (`hq=` of a reobs line).
+func (e *vEth) BlockNumber(ctx context.Context) (hexutil.Uint64, error) {
+	n := e.n
+	n.mu.Lock()
+	defer n.mu.Unlock()
+	defer n.poke()
+	n.calls = append(n.calls, "hq:eth_blockNumber")
+	if n.bnErrAll {
+		return 0, errors.New("scripted failure")
+	}
+	return hexutil.Uint64(n.heads["latest"]), nil
 }
 
 func vBlockHashFor(h uint64, salt byte) ethCommon.Hash {
@@ -320,6 +337,17 @@ func (e *vEth) GetTransactionReceipt(ctx context.Context, h ethCommon.Hash) (int
 	defer n.mu.Unlock()
 	defer n.poke()
 	n.calls = append(n.calls, "rc:"+hex.EncodeToString(h[:]))
+	if g := n.gate; g != nil {
+		// the request has arrived; its answer is held back until the harness opens the gate (a slow RPC provider)
+		n.held++
+		n.poke()
+		n.mu.Unlock()
+		select {
+		case <-g:
+		case <-ctx.Done():
+		}
+		n.mu.Lock()
+	}
 	if b, ok := n.bump[h]; ok {
 		for k, v := range b {
 			n.heads[k] = v
@@ -462,6 +490,7 @@ type vCase struct {
 	gapS     uint64
 	lat      uint64
 	flushed  bool // no poller iteration that read "enabled" can still be in flight
+	sticky   []vTxRef // transactions delivered by a race op: their receipt answer is scripted (and written out) at every later op
 }
 
 var vCaseSeq int64
@@ -606,6 +635,7 @@ func (c *vCase) start(gsErr bool) bool {
 
 func (c *vCase) stop() {
 	c.g.w.Flush() // a crash of the process under test must not lose the cases written so far
+	c.openGate()
 	c.cancel()
 	// Run never closes the RPC client it dialled; do it here so that goroutines do not pile up over hundreds of cases
 	if c.w != nil && c.w.ethConn != nil {
@@ -802,6 +832,7 @@ func (c *vCase) scriptAnswers(extra []vTxRef, pick func(vTxRef) vRcAns) string {
 	for _, k := range keys {
 		refs = append(refs, vTxRef{k.TxHash, k.BlockHash, pend[k].height})
 	}
+	refs = append(refs, c.sticky...)
 	refs = append(refs, extra...)
 	done := map[ethCommon.Hash]bool{}
 	var parts []string
@@ -933,17 +964,7 @@ func (c *vCase) opLog(l vLogSpec, pick func(vTxRef) vRcAns) {
 	c.flushed = false // the insertion enables the poller
 	mark := c.callMark()
 	ans := c.scriptAnswers([]vTxRef{{l.tx, l.bh, l.bn}}, pick)
-	data := vPackData(l.m)
-	if l.badData {
-		data = data[:len(data)-40] // cuts into the payload length word / the payload itself
-	}
-	var senderTopic ethCommon.Hash
-	copy(senderTopic[12:], l.m.sender[:])
-	lg := ethTypes.Log{Address: c.contract, Topics: []ethCommon.Hash{LogMessagePublishedTopic, senderTopic}, Data: data,
-		BlockNumber: l.bn, TxHash: l.tx, BlockHash: l.bh, Removed: l.removed}
-	// whether the log is decodable is decided by the real ABI decoder (trusted base), not by the generator's intention
-	undecodable := vParseOracle(&lg) == "err"
-	key := pendingKey{TxHash: l.tx, BlockHash: l.bh, EmitterAddress: PadAddress(l.m.sender), Sequence: l.m.seq}
+	lg, undecodable, key := c.buildLog(l)
 	before, _ := c.pendingSnapshot()
 	prev := before[key]
 	c.node.mu.Lock()
@@ -953,7 +974,42 @@ func (c *vCase) opLog(l vLogSpec, pick func(vTxRef) vRcAns) {
 	if err := notifier.Notify(subID, lg); err != nil {
 		c.stuck = "notify:" + err.Error()
 	}
-	// barrier: the entry for this key is replaced by a new pointer, or Run ends
+	c.waitInserted(l, key, prev)
+	c.settle()
+	rm, bd := 0, 0
+	if l.removed {
+		rm = 1
+	}
+	if undecodable {
+		bd = 1
+	}
+	c.emit(fmt.Sprintf("log %s %s %s pe=0 ans=%s %s", c.id, vLogFields(l, rm, bd), c.headsCanon(), ans, c.results(mark)))
+}
+
+func vLogFields(l vLogSpec, rm, bd int) string {
+	return fmt.Sprintf("tx=%s bh=%s bn=%d sender=%s tchain=%d seq=%d nonce=%d pl=%s cl=%d rm=%d bad=%d bt=%s",
+		hex.EncodeToString(l.tx[:]), hex.EncodeToString(l.bh[:]), l.bn, hex.EncodeToString(l.m.sender[:]), l.m.tchain, l.m.seq,
+		l.m.nonce, vhex(l.m.payload), l.m.cl, rm, bd, l.bt.canon())
+}
+
+func (c *vCase) buildLog(l vLogSpec) (lg ethTypes.Log, undecodable bool, key pendingKey) {
+	data := vPackData(l.m)
+	if l.badData {
+		data = data[:len(data)-40] // cuts into the payload length word / the payload itself
+	}
+	var senderTopic ethCommon.Hash
+	copy(senderTopic[12:], l.m.sender[:])
+	lg = ethTypes.Log{Address: c.contract, Topics: []ethCommon.Hash{LogMessagePublishedTopic, senderTopic}, Data: data,
+		BlockNumber: l.bn, TxHash: l.tx, BlockHash: l.bh, Removed: l.removed}
+	// whether the log is decodable is decided by the real ABI decoder (trusted base), not by the generator's intention
+	undecodable = vParseOracle(&lg) == "err"
+	key = pendingKey{TxHash: l.tx, BlockHash: l.bh, EmitterAddress: PadAddress(l.m.sender), Sequence: l.m.seq}
+	return
+}
+
+// waitInserted: barrier for "the log goroutine has finished with this notification": the entry for this key is replaced by a
+// new pointer, or Run ends
+func (c *vCase) waitInserted(l vLogSpec, key pendingKey, prev *pendingMessage) {
 	deadline := time.Now().Add(vWatchdog)
 	for c.stuck == "" {
 		now, _ := c.pendingSnapshot()
@@ -986,17 +1042,179 @@ func (c *vCase) opLog(l vLogSpec, pick func(vTxRef) vRcAns) {
 		}
 		time.Sleep(20 * time.Microsecond)
 	}
+}
+
+func (c *vCase) openGate() {
+	c.node.mu.Lock()
+	g := c.node.gate
+	c.node.gate = nil
+	c.node.mu.Unlock()
+	if g != nil {
+		close(g)
+	}
+}
+
+// waitHeld: barrier for "the scan of head `want` is in progress": one of its receipt requests has reached the node and is being
+// held there. Returns false when the scan ended without asking for a receipt, when Run ended, or on the watchdog.
+func (c *vCase) waitHeld(want string) bool {
+	deadline := time.NewTimer(vWatchdog)
+	defer deadline.Stop()
+	for {
+		c.node.mu.Lock()
+		held := c.node.held
+		c.node.mu.Unlock()
+		if held > 0 {
+			return true
+		}
+		for _, e := range c.sink.snapshot(c.logFrom) {
+			if e.msg == "processed new header" && fmt.Sprint(e.f["current_block"]) == want {
+				return false
+			}
+		}
+		select {
+		case <-c.node.wake:
+		case <-c.sink.wake:
+		case err := <-c.exitC:
+			c.exited = vExitKind(err)
+			return false
+		case <-deadline.C:
+			c.stuck = "race-scan"
+			return false
+		}
+	}
+}
+
+// insertParked reports whether a goroutine started by this case's Watcher.Run is parked in sync.Mutex.Lock. While the harness
+// holds back the receipt answer of a head scan the only mutex such a goroutine can be waiting for is pendingMu, held by the
+// scan: the log goroutine has done everything up to its insertion and will insert once the scan releases the lock.
+// (Same technique as pollerParked: goroutine states read from runtime.Stack.)
+func (c *vCase) insertParked() bool {
+	ptr := fmt.Sprintf("%p", c.w)
+	vDumps++
+	buf := vStackBuf[:runtime.Stack(vStackBuf, true)]
+	blocks := strings.Split(string(buf), "\n\n")
+	const marker = "pkg/ethereum.(*Watcher).Run("
+	runID := ""
+	for _, g := range blocks {
+		i := strings.Index(g, marker)
+		if i < 0 {
+			continue
+		}
+		arg := g[i+len(marker):]
+		if j := strings.IndexAny(arg, ",)"); j >= 0 {
+			arg = arg[:j]
+		}
+		if strings.TrimSuffix(arg, "?") != ptr {
+			continue // the Run of another (ending) case
+		}
+		if f := strings.Fields(g); len(f) >= 2 && f[0] == "goroutine" {
+			runID = f[1]
+		}
+	}
+	if runID == "" {
+		return false
+	}
+	parent := "pkg/ethereum.(*Watcher).Run in goroutine " + runID
+	for _, g := range blocks {
+		k := strings.LastIndex(g, "created by ")
+		if k < 0 {
+			continue
+		}
+		created := g[k:]
+		if nl := strings.IndexByte(created, '\n'); nl >= 0 {
+			created = created[:nl]
+		}
+		if !strings.HasSuffix(created, parent) {
+			continue
+		}
+		head := g
+		if nl := strings.IndexByte(head, '\n'); nl >= 0 {
+			head = head[:nl]
+		}
+		if strings.Contains(head, "[sync.Mutex.Lock") {
+			return true
+		}
+	}
+	return false
+}
+
+// waitInsertedOrParked: barrier for "the log goroutine has gone as far as it can while the scan is waiting for its receipt":
+// either the entry is already in w.pending ("during": the scan does not hold pendingMu), or the goroutine is parked on the
+// mutex ("after": it will insert when the scan has ended).
+func (c *vCase) waitInsertedOrParked(key pendingKey) string {
+	deadline := time.Now().Add(vWatchdog)
+	for {
+		if c.w.pendingMu.TryLock() {
+			_, ok := c.w.pending[key]
+			c.w.pendingMu.Unlock()
+			if ok {
+				return "during"
+			}
+		}
+		if c.insertParked() {
+			return "after"
+		}
+		select {
+		case err := <-c.exitC:
+			c.exited = vExitKind(err)
+			return "after"
+		default:
+		}
+		if time.Now().After(deadline) {
+			c.stuck = "race-insert"
+			return "after"
+		}
+		time.Sleep(50 * time.Microsecond)
+	}
+}
+
+// opRace: the node's head moves to `lat` (at which at least one pending message has reached its depth, and which the poller
+// must publish), and WHILE the watcher is processing that head - the node holds back the answer to the scan's first receipt
+// request - a new block with message `l` is mined and its log is pushed to the subscription. Only when the log goroutine has
+// gone as far as it can (see waitInsertedOrParked) is the receipt answered. Both transactions stay where they are.
+func (c *vCase) opRace(l vLogSpec, lat uint64, pick func(vTxRef) vRcAns) {
+	c.flushed = false
+	mark := c.callMark()
+	c.sticky = append(c.sticky, vTxRef{l.tx, l.bh, l.bn})
+	ans := c.scriptAnswers(nil, func(x vTxRef) vRcAns {
+		if x.tx == l.tx {
+			bn := x.bn
+			return vRcAns{kind: "r", status: 1, bh: x.bh, bn: &bn}
+		}
+		return pick(x)
+	})
+	lg, _, key := c.buildLog(l)
+	c.node.mu.Lock()
+	c.node.blocks[l.bh] = l.bt
+	c.node.gate = make(chan struct{})
+	c.node.held = 0
+	notifier, subID := c.node.notifier, c.node.subID
+	c.node.mu.Unlock()
+	c.setHeads(lat)
+	held := c.waitHeld(strconv.FormatUint(c.watched(), 10))
+	ins := "after"
+	if !c.dead() {
+		if err := notifier.Notify(subID, lg); err != nil {
+			c.stuck = "notify:" + err.Error()
+		}
+		// barrier: the watcher's own line for this log (its block time has been served)
+		txs := l.tx.Hex()
+		if c.waitLog(c.logFrom, func(e vEntry) bool {
+			return e.msg == "found new message publication transaction" && e.f["tx"] == txs
+		}) && held {
+			ins = c.waitInsertedOrParked(key)
+		}
+	}
+	c.openGate()
+	if ins != "during" && !c.dead() {
+		c.waitInserted(l, key, nil)
+	}
 	c.settle()
-	rm, bd := 0, 0
-	if l.removed {
-		rm = 1
+	h := 0
+	if held {
+		h = 1
 	}
-	if undecodable {
-		bd = 1
-	}
-	c.emit(fmt.Sprintf("log %s tx=%s bh=%s bn=%d sender=%s tchain=%d seq=%d nonce=%d pl=%s cl=%d rm=%d bad=%d bt=%s %s pe=0 ans=%s %s",
-		c.id, hex.EncodeToString(l.tx[:]), hex.EncodeToString(l.bh[:]), l.bn, hex.EncodeToString(l.m.sender[:]), l.m.tchain, l.m.seq,
-		l.m.nonce, vhex(l.m.payload), l.m.cl, rm, bd, l.bt.canon(), c.headsCanon(), ans, c.results(mark)))
+	c.emit(fmt.Sprintf("race %s %s held=%d ins=%s %s pe=0 ans=%s %s", c.id, vLogFields(l, 0, 0), h, ins, c.headsCanon(), ans, c.results(mark)))
 }
 
 func (c *vCase) opHead(lat uint64, pollErr int, noNum bool, pick func(vTxRef) vRcAns) {
@@ -1131,6 +1349,20 @@ func (c *vCase) opReobs(r vReobs, pick func(vTxRef) vRcAns) {
 	if r.noNum {
 		nn = 1
 	}
-	c.emit(fmt.Sprintf("reobs %s tx=%s %s bnerr=%d nn=%d rc=%s rbt=%s rlogs=%s %s pe=0 ans=%s %s", c.id, hex.EncodeToString(r.tx[:]),
-		before, be, nn, r.rc.canon(), r.bt.canon(), vjoin(logs, ";"), c.headsCanon(), ans, c.results(mark)))
+	// which head reads reached the node during the op (block tags of eth_getBlockByNumber, or another method's name)
+	hqs := map[string]bool{}
+	c.node.mu.Lock()
+	for _, x := range c.node.calls[mark:] {
+		if strings.HasPrefix(x, "hq:") {
+			hqs[x[3:]] = true
+		}
+	}
+	c.node.mu.Unlock()
+	hq := make([]string, 0, len(hqs))
+	for k := range hqs {
+		hq = append(hq, k)
+	}
+	sort.Strings(hq)
+	c.emit(fmt.Sprintf("reobs %s tx=%s %s bnerr=%d nn=%d rc=%s rbt=%s rlogs=%s hq=%s %s pe=0 ans=%s %s", c.id, hex.EncodeToString(r.tx[:]),
+		before, be, nn, r.rc.canon(), r.bt.canon(), vjoin(logs, ";"), vjoin(hq, ","), c.headsCanon(), ans, c.results(mark)))
 }
